@@ -48,10 +48,10 @@ const alnum = "abcdefghijklmnopqrstuvwxyz0123456789"
 func payload(cs *writerCase, st *step, seed int) []byte {
 	n := st.Size
 	if st.API == "JS" {
-		if n < 3 {
+		if n < 2 {
 			rp.Bug("JSON message of %d bytes", n)
 		}
-		n -= 3 // "<n-3 characters>"\n
+		n -= 2 // "<n-2 characters>"; the encoder may add a line feed (wireMsg.NL)
 	}
 	var b []byte
 	if cs.Content == "rnd" {
@@ -61,12 +61,12 @@ func payload(cs *writerCase, st *step, seed int) []byte {
 		b = ld.FillBytes(n, st.ID, seed)
 	}
 	if st.API == "JS" {
-		out := make([]byte, 0, n+3)
+		out := make([]byte, 0, n+2)
 		out = append(out, '"')
 		for _, x := range b {
 			out = append(out, alnum[int(x)%len(alnum)])
 		}
-		return append(out, '"', '\n')
+		return append(out, '"')
 	}
 	return b
 }
@@ -150,7 +150,7 @@ func writeStep(c *websocket.Conn, st *step, data []byte, seed int) error {
 		}
 		return c.WritePreparedMessage(pm)
 	case "JS":
-		return c.WriteJSON(string(data[1 : len(data)-2]))
+		return c.WriteJSON(string(data[1 : len(data)-1]))
 	case "NW", "WS", "RF":
 		w, err := c.NextWriter(st.T)
 		if err != nil {
@@ -210,7 +210,7 @@ func readAll(c *websocket.Conn, pings *[][]byte) ([]rdMsg, error) {
 	}
 }
 
-func sameMsgs(who string, got []rdMsg, want [][]byte, msgs []wireMsg) error {
+func sameMsgs(who string, got []rdMsg, want []wantMsg, msgs []wireMsg) error {
 	for k := range got {
 		if k >= len(want) {
 			return fmt.Errorf("%s delivered %d messages, %d were written (extra: type %d, %d bytes)", who, len(got), len(want), got[k].T, len(got[k].P))
@@ -218,8 +218,8 @@ func sameMsgs(who string, got []rdMsg, want [][]byte, msgs []wireMsg) error {
 		if got[k].T != msgs[k].T {
 			return fmt.Errorf("%s: message %d has type %d, written as %d", who, k+1, got[k].T, msgs[k].T)
 		}
-		if !bytes.Equal(got[k].P, want[k]) {
-			return fmt.Errorf("%s: message %d (type %d, %d bytes) arrived with a different payload: %s", who, k+1, msgs[k].T, len(want[k]), rp.FirstDiff(got[k].P, want[k]))
+		if !want[k].eq(got[k].P) {
+			return fmt.Errorf("%s: message %d (type %d, %d bytes) arrived with a different payload: %s", who, k+1, msgs[k].T, len(want[k].B), rp.FirstDiff(got[k].P, want[k].B))
 		}
 	}
 	if len(got) < len(want) {
@@ -251,15 +251,15 @@ func runWriter(c *rp.Ctx, i int, cs *writerCase) rp.Result {
 		}
 	}
 
-	var want [][]byte
+	var want []wantMsg
 	var pingsSent [][]byte
 	for k := range cs.Steps {
 		st := &cs.Steps[k]
 		data := payload(cs, st, c.Seed)
-		if len(data) != st.Size || cs.Msgs[k].Size != st.Size || cs.Msgs[k].T != st.T {
+		if len(data) != st.Size || cs.Msgs[k].Size != st.Size || cs.Msgs[k].T != st.T || cs.Msgs[k].NL != (st.API == "JS") {
 			rp.Bug("step %d: payload %d bytes, step says %d, message list says %d (type %d/%d)", k, len(data), st.Size, cs.Msgs[k].Size, st.T, cs.Msgs[k].T)
 		}
-		want = append(want, data)
+		want = append(want, wantMsg{data, cs.Msgs[k].NL})
 		if st.Ping >= 0 {
 			p := ctlPayload(st.Ping, k)
 			pingsSent = append(pingsSent, p)
